@@ -18,9 +18,10 @@ requests (answers):
   pow T a n rnds
   sum T xs ; inprod T xs ys rnd ; vadd|vsub|vaddold T xs ys ; smul T a xs rnds ; schur T xs ys rnds
   ifelsel T c xs ys ; ifswapl T c xs ys -> `list list` ; matprod T tr A B rndmatrix ; prod T xs rnds ; all T xs
-  flt-* : see MpycV.Model.Flt
+  fltin T m@q e -> `S:flag:E` ; fltneg T a ; fltmul T a b rnd ; fltadd T a b rnd1 rnd2   (float value = `S:flag:E`)
 -/
 import MpycV.Model.Fxp
+import MpycV.Model.Flt
 import MpycV.Model.Util
 open MpycV MpycV.Fxp MpycV.Util
 
@@ -82,8 +83,29 @@ def showVList (t : Ty) (vs : List V) : String :=
 def showVMat (t : Ty) (m : List (List V)) : String :=
   if m.isEmpty then "-" else ";".intercalate (m.map (showVList t))
 
+def parseF? (s : String) : Option MpycV.Flt.F :=
+  match s.splitOn ":" with
+  | [a, fl, e] => do
+    let a ← parseInt? a
+    let fl ← parseBool? fl
+    let e ← parseInt? e
+    pure ⟨⟨a, fl⟩, e⟩
+  | _ => none
+
+def showF (t : Ty) (a : MpycV.Flt.F) : String := s!"{showV t a.S}:{a.E}"
+
 def stepT (t : Ty) (op : String) (args : List String) : Option String :=
   match op, args with
+  | "fltin", [x, e] => do
+    let x ← parseDy? x; let e ← parseInt? e
+    pure (showF t (MpycV.Flt.ofFloat t x e))
+  | "fltneg", [a] => do let a ← parseF? a; pure (showF t (MpycV.Flt.neg a))
+  | "fltmul", [a, b, r] => do
+    let a ← parseF? a; let b ← parseF? b; let r ← parseRnd? r
+    if t.l < 3 then none else pure (showF t (MpycV.Flt.mul t a b r))
+  | "fltadd", [a, b, r1, r2] => do
+    let a ← parseF? a; let b ← parseF? b; let r1 ← parseRnd? r1; let r2 ← parseRnd? r2
+    if t.l < 3 then none else pure (showF t (MpycV.Flt.add t a b r1 r2))
   | "ofint", [n] => do let n ← parseInt? n; pure (showV t (ofInt t.f n))
   | "offloat", [x] => do let x ← parseDy? x; pure (showV t (ofFloat t.f x))
   | "offloat0", [x] => do let x ← parseDy? x; pure (showV t (ofFloatNoFlag t.f x))
